@@ -1,10 +1,10 @@
 """C09 — modular and number-theoretic integer functions and scalar recodings are correct."""
 from props.bngen import hx, magnitude, signed
 from props.c01 import _cfg
-from props import c09_gcd, c09_mxp, c09_smb, c09_mod   # LOCAL (sub-mxp copy): c09_pol not present here
+from props import c09_gcd, c09_mxp, c09_smb, c09_mod, c09_pol
 
-FAMILIES = (c09_gcd, c09_mxp, c09_smb, c09_mod)
-EXTRA_THEOREM_MODULES = ["RelicVerif.Props.C09Gcd", "RelicVerif.Props.C09Mxp", "RelicVerif.Props.C09Smb", "RelicVerif.Props.C09Mod"]
+FAMILIES = (c09_gcd, c09_mxp, c09_smb, c09_mod, c09_pol)
+EXTRA_THEOREM_MODULES = ["RelicVerif.Props.C09Gcd", "RelicVerif.Props.C09Mxp", "RelicVerif.Props.C09Smb", "RelicVerif.Props.C09Mod", "RelicVerif.Props.C09Pol"]
 
 TRUSTED = [
     "class A/B (modelled in Model/Rec.lean and proved): bn_rec_win/slw/naf/reg/jsf — value, digit set, length, sparsity",
@@ -13,7 +13,7 @@ TRUSTED = [
     "primality / reductions and square root / polynomials); 'partial' there means: the theorem holds whenever the model returns, and the model checks on every line "
     "what is not proved (termination / no overflow) instead of assuming it",
     "class C (compared with the mathematical definition evaluated in Lean, not modelled): bn_mod_basic / bn_mod with three arguments (= the division of C01), "
-    "bn_mxp_sim_few for n != 2 and bn_mxp_sim_lot (not presented), bn_gcd_ext_mid (not presented), bn_is_prime_solov on composite inputs (random bases), prime generation "
+    "bn_mxp_sim_lot (not presented), bn_gcd_ext_mid (not presented), bn_is_prime_solov on composite inputs (random bases), prime generation "
     "(bn_gen_prime_*: length, oddness and primality of the output below 2^80), operands longer than RLC_BN_DIGS (may be refused), moduli <= 0 or = 1 of bn_evl / bn_lag, "
     "multi-digit moduli of bn_smb_jac (model executed and tied; theorem only for one-digit moduli and for the single-digit loop)",
     "primality ground truth: deterministic Miller-Rabin below 2^80 in the driver; above that only numbers with a supplied factor (composites) "
@@ -213,8 +213,13 @@ CORPUS = FINDING_LINES + ["nt_rec win 4 1", "nt_rec win 2 0", "nt_inv -1 5", "nt
           "nt_gcd_ext basic 0 5", "nt_inv 3 7", "nt_mxp basic 2 -1 7", "nt_mxp slide 0 0 7", "nt_rec naf 2 0", "nt_rec win 4 1", "nt_srt 0"]
 
 
+# one oracle for every user of the nt_* ops (C08 links the same one for its sanitizer streams and boundary sweeps)
+ORACLE_DEFS = ("ORACLE_NT", "ORACLE_EXTRA2=ops_nt_mxp")
+ORACLE_SOURCES = ("oracle.c", "ops_bn.c", "ops_nt.c", "ops_nt_mxp.c")
+
+
 def _exe(ctx, cfg):
-    return ctx.oracle(cfg, defs=("ORACLE_NT", "ORACLE_EXTRA2=ops_nt_mxp"), sources=("oracle.c", "ops_bn.c", "ops_nt.c", "ops_nt_mxp.c"), tag="_nt")
+    return ctx.oracle(cfg, defs=ORACLE_DEFS, sources=ORACLE_SOURCES, tag="_nt")
 
 
 def streams(ctx, scale=1):
